@@ -27,3 +27,47 @@ Theorem C05_trace_supported : forall u P lg sol,
 Proof. exact sat_log_supported. Qed.
 Check C05_trace_supported : forall u P lg sol,
   check_sat_log u P lg sol = true -> supported (table_provider u) P sol.
+
+(* ---- Solver::propagate itself (Cdcl/Propagate.v: assertions first, then the
+   watch lists of watch_map.rs -- a clause that starts watching a literal goes to
+   the head of that literal's list, watches move only in Requires and learnt
+   clauses, to the first literal that is not false and is not the other watch;
+   compared with the implementation at every call: every assignment with its
+   level and reason clause, in order, and the conflicting clause) ---- *)
+From Resolvo Require Import Cdcl.PropagateHyp.
+
+(* for every clause database and every state satisfying the structural invariant
+   of the watch scheme: whatever propagate adds to the trail is justified -- the
+   reason clause contains the literal and all its other literals are false under
+   the older part of the trail, which is the legality condition of a propagation
+   in the abstract machine and the side condition of the conflict-analysis
+   theorems -- the clause it reports as conflict is falsified, and the invariant
+   holds again afterwards *)
+Theorem C05_propagate_sound : forall db level asserts units st st' r,
+  WInv db (ps_watch st) (ps_lists st) -> tnodup st ->
+  (forall x, In x (asserts ++ units) -> assert_just db st x = true) ->
+  propagate db level asserts units st = Some (st', r) ->
+  WInv db (ps_watch st') (ps_lists st') /\ tnodup st' /\ grows db (ps_trail st) (ps_trail st') /\
+  (forall o id, r = Some (o, id) -> exists c, nth_error db (N.to_nat id) = Some c /\ falsified (ps_trail st') (cl_lits c) = true).
+Proof. exact propagate_sound. Qed.
+
+(* in the form the check uses: the hypotheses are evaluated at every call *)
+Theorem C05_checked_propagate_sound : forall db level asserts units st st' r,
+  prop_hyps db asserts units st = true ->
+  propagate db level asserts units st = Some (st', r) ->
+  grows db (ps_trail st) (ps_trail st') /\
+  (forall o id, r = Some (o, id) -> exists c, nth_error db (N.to_nat id) = Some c /\ falsified (ps_trail st') (cl_lits c) = true).
+Proof. exact checked_propagate_sound. Qed.
+
+(* what "grows" means entry by entry *)
+Theorem C05_grows_justified : forall db base cur, grows db base cur ->
+  exists new, cur = new ++ base /\
+    forall k e, nth_error new k = Some e -> reason_ok db e (skipn (S k) new ++ base) = true.
+Proof. exact grows_justified. Qed.
+
+(* a clause that starts being watched keeps the invariant *)
+Theorem C05_start_watching_keeps_invariant : forall db ws ls id w,
+  WInv db ws ls -> wget ws id = None -> watch_ok db id w ->
+  let ls1 := lset ls (fst w) (id :: lget ls (fst w)) in
+  WInv db (wset ws id w) (lset ls1 (snd w) (id :: lget ls1 (snd w))).
+Proof. exact winv_start. Qed.
